@@ -14,7 +14,7 @@ for d in sorted(glob.glob(os.path.join(HERE, 'seeded', '*'))):
     sigs = cur.get('signatures') or m.get('ran', {}).get('check_signatures') or []
     rows.append((os.path.basename(d), m['property'], (m.get('breaks') or '').replace('|', '/').replace('\n', ' ')[:230],
                  (m.get('needs') or '').replace('|', '/').replace('\n', ' ')[:200],
-                 'yes' if first else 'NO', ('yes (%s)' % cur.get('check')) if cur.get('caught') else ('-' if not cur else ('no: ' + m['disposition'][:60] if m.get('disposition') else 'NO')),
+                 'yes' if first else 'NO', 'obsolete' if m.get('obsolete') else ('yes (%s)' % cur.get('check')) if cur.get('caught') else ('-' if not cur else ('no: ' + m['disposition'][:60] if m.get('disposition') else 'NO')),
                  '; '.join(s.split('  (x')[0].replace('|', '/') for s in sigs[:2])[:160]))
 with open(os.path.join(HERE, 'SEEDED.md'), 'w') as f:
     f.write('# Seeded property-breaking changes (written by sub-agents that saw only the property text)\n\n')
